@@ -1,6 +1,6 @@
 #!/bin/bash
 # seed_eval.sh <seed-id> [property] [suffix]  : (suffix names a later round: seeded/<id><suffix>) confirm a seeded change from /tmp/seed/<id>/out in a scratch worktree,
-# store it under /verif/seeded/<id>/, then run the property's quick check against it (applied to /repo, reverted afterwards).
+# store it under /verif/seeded/<id>/, then run the property's quick check against a scratch worktree with the change applied.
 id=$1; prop=${2:-${id%%-*}}; suffix=${3:-}
 export GOFLAGS=-mod=mod GOPROXY=off GOSUMDB=off GOTOOLCHAIN=local
 src=/tmp/seed/$id/out; dst=/verif/seeded/$id$suffix
@@ -16,11 +16,12 @@ rm $s/r/$pkg/zz_seed_demo_test.go
 suite=$(cd $s/r && go test -vet=off -count=1 ./... 2>&1 | grep -v '^ok\|no test files' | head -5)
 git -C /repo worktree remove --force $s/r; rm -rf $s
 echo "demo on original: $orig"; echo "demo on change:   $changed"; echo "suite failures: ${suite:-none}"
-# run the check (never with uncommitted work in /repo: the revert below would destroy it)
-if [ -n "$(git -C /repo status --porcelain)" ]; then echo "/repo has uncommitted changes: commit them first"; exit 2; fi
-cd /repo && git apply $dst/patch.diff || { echo "cannot apply to /repo"; exit 2; }
-out=$(cd /verif && ./check $prop quick 2>&1 | grep -v '^ok' | tail -6); rc=$?
-git -C /repo checkout -- . 
+# run the check against a scratch worktree with the change applied (never touches /repo; evidence and replays go to a scratch verif dir)
+s=$(mktemp -d); v=$(mktemp -d); git -C /repo worktree add --detach -q $s/r HEAD
+git -C $s/r apply $dst/patch.diff || { echo "cannot apply"; git -C /repo worktree remove --force $s/r; rm -rf $s $v; exit 2; }
+for f in props.json known_findings.json contracts-lib lemmas bounded oracles hints; do [ -e /verif/$f ] && ln -s /verif/$f $v/$f; done
+out=$(cd /verif && ./bin/govc check -repo $s/r -verif $v -prop $prop -tier quick 2>&1 | grep -v '^ok' | tail -6)
+git -C /repo worktree remove --force $s/r; rm -rf $s $v
 echo "$out"
 python3 - "$dst" "$prop" "$orig" "$changed" "${suite:-none}" <<PY
 import json,sys
